@@ -161,6 +161,43 @@ def check(ctx):
         else:
             can_false = any(isinstance(r, ast.Return) and not (isinstance(r.value, ast.Constant) and r.value.value is True) for r in statements(psc.node))
             ctx.check(can_false, R, c, "%s can reject" % c.name, "%s.potential_sample_conforms can reject" % c.name, "%s.potential_sample_conforms cannot return a falsy value" % c.name)
+            # no accept that does not depend on the sample: an early `return True` must be guarded by a test on data derived from `sample`
+            from ..cfg import guard_stack as _gs
+            gs = _gs(psc.node)
+            sample_name = psc.params[1] if len(psc.params) > 1 else "sample"
+            derived = {sample_name}
+            for _ in range(3):
+                for st in statements(psc.node):
+                    tgt = None
+                    if isinstance(st, ast.Assign):
+                        tgt, val = st.targets, st.value
+                    elif isinstance(st, ast.For):
+                        tgt, val = [st.target], st.iter
+                    if tgt is not None and any(isinstance(x, ast.Name) and x.id in derived for x in ast.walk(val)):
+                        for t in tgt:
+                            derived |= {x.id for x in ast.walk(t) if isinstance(x, ast.Name)}
+            top = psc.node.body
+            for r in statements(psc.node):
+                if isinstance(r, ast.Return) and isinstance(r.value, ast.Constant) and r.value.value is True and r is not top[-1]:
+                    guards = gs.get(id(r), [])
+                    dep = any(isinstance(x, ast.Name) and x.id in derived for t, _p in guards for x in ast.walk(t))
+                    in_loop_over_sample = any(isinstance(lp, (ast.For, ast.While)) and any(y is r for y in ast.walk(lp)) and
+                                              any(isinstance(x, ast.Name) and x.id in derived for x in ast.walk(lp.iter if isinstance(lp, ast.For) else lp.test))
+                                              for lp in statements(psc.node))
+                    # the tail of a checking block: an earlier statement of the same block already examined the candidate
+                    after_check = False
+                    for node in ast.walk(psc.node):
+                        for fld in ("body", "orelse"):
+                            b = getattr(node, fld, None)
+                            if isinstance(b, list) and any(x is r for x in b):
+                                i = [k for k, x in enumerate(b) if x is r][0]
+                                after_check = any(isinstance(y, ast.Name) and y.id in derived for x in b[:i] for y in ast.walk(x))
+                    if c.name == "LatinSquare" and [ast.unparse(t) for t, _p in guards] == ["len(self.factors) == 1"]:
+                        ctx.exception("LatinSquare", "a Latin square over a single factor constrains nothing")
+                        continue
+                    ctx.check(dep or in_loop_over_sample or after_check, R, psc, "%s early accept" % c.name, "an early `return True` of %s depends on the candidate" % c.name,
+                              "%s.potential_sample_conforms accepts (`return True` under %s) without looking at the candidate sequence: for those designs RandomGen and the mismatch "
+                              "checker never reject a violation of this constraint" % (c.name, [ast.unparse(t) for t, _p in guards]), r)
     ctx.require(n >= 15, "only %d concrete constraint classes" % n)
     for cname in ("AtMostKInARow", "AtLeastKInARow", "ExactlyK", "ExactlyKInARow", "ExactlyKMultipleInARow"):
         h = ctx.fn("constraint:%s._potential_counts_conform" % cname)
@@ -179,6 +216,7 @@ def check(ctx):
                   R, d, "%s routing" % d.cls.name, "complex designs go to the formula-based sampler, the rest to RandomGen", "%s routing changed" % d.cls.name)
 
     C07.crossing_facts(ctx, R="C04.crossing")
+    C07.applicability_sites(ctx, R="C04.applicability")
 
     mod = sys.modules[__name__]
     control(ctx, mod, "append before the rejection test",
@@ -192,6 +230,7 @@ def check(ctx):
     control(ctx, mod, "skip Pin in the rejection loop",
             lambda s: variants.in_function(s, "sweetpea/_internal/sampling_strategy/random.py", "RandomGen.__are_constraints_violated",
                                            "        for ct in block.constraints:\n", "        for ct in block.constraints:\n            if isinstance(ct, Exclude):\n                continue\n"), "C04.constraints")
+    ctx.min_instances("C04.applicability", 10)
     ctx.min_instances("C04.accept", 6)
     ctx.min_instances("C04.constraints", 8)
     ctx.min_instances("C04.registry", 20)
